@@ -15,7 +15,7 @@ TAIL = ["step idle", "step idle", "step idle", "step idle", "step tick:40", "ste
 class C09(Prop):
     id = "C09"
     title = "No event history or failing task takes the driver down"
-    lean_modules = ["NV.C09.Props", "NV.C09.Witness", "NV.C09.Bridge"]
+    lean_modules = ["NV.C09.Props", "NV.C09.Witness", "NV.C09.Bridge", "NV.C09.SpecNeg"]
     theorems = ["NV.C09.backend_order_as_modelled", "NV.C09.error_handler_order_as_modelled",
                 "NV.C09.call_out_order_as_modelled", "NV.C09.sweep_order_as_modelled",
                 "NV.C09.remove_interactive_order_as_modelled", "NV.C09.user_command_order_as_modelled",
@@ -265,6 +265,34 @@ class C09(Prop):
                                               "step idle", "step idle"])
         mk("connect-rejected", ["mode net", "script k1 connect rej", "step conn:c1", "step conn:c2", "step send:c2:a/"])
         return B
+
+    # ---- oracle self-test: traces the compiled judge must reject ------------------
+    def extra_checks(self, ctx, tier, rng):
+        head = ["load reg /c09/reg", "mode net", "step conn:c1", "step send:c1:a/b/", "step idle", "run", "--"]
+        tail = ["exit loop", 'hbs ""', "refs 0 0", "slots 1"]
+        pre = ["start", "cycle 1", "t connect k1", "t logon u1", "cycle 2"]
+        bad = {
+            "line-never-served": pre + ["t input u1 a", "t cmd u1 a", "cycle 3"] + tail,
+            "line-served-twice": pre + ["t input u1 a", "t cmd u1 a", "cycle 3", "t input u1 a", "t cmd u1 a", "cycle 4",
+                                        "t input u1 b", "t cmd u1 b"] + tail,
+            "lines-out-of-order": pre + ["t input u1 b", "t cmd u1 b", "cycle 3", "t input u1 a", "t cmd u1 a"] + tail,
+            "wrong-command-run": pre + ["t input u1 a", "t cmd u1 zzz", "cycle 3", "t input u1 b", "t cmd u1 b"] + tail,
+            "refs-unbalanced": pre + ["t input u1 a", "t cmd u1 a", "cycle 3", "t input u1 b", "t cmd u1 b",
+                                      "exit loop", 'hbs ""', "refs 1 0", "slots 1"],
+            "sanitizer-line": pre + ["sanitizer ERROR: AddressSanitizer: heap-use-after-free"] + tail,
+        }
+        good = pre + ["t input u1 a", "t cmd u1 a", "cycle 3", "t input u1 b", "t cmd u1 b"] + tail
+        cases = [E.Case("neg-" + k, head + v) for k, v in bad.items()] + [E.Case("pos-good", head + good)]
+        out = E.nvdrive(self.id, "judge", E.cases_text(cases))
+        problems = []
+        for k in bad:
+            if out.get("neg-" + k, ["ok"]) == ["ok"]:
+                problems.append({"kind": "obligation-broken", "name": "oracle self-test: " + k,
+                                 "detail": "the judge accepted a trace it must reject"})
+        if out.get("pos-good") != ["ok"]:
+            problems.append({"kind": "obligation-broken", "name": "oracle self-test: good trace",
+                             "detail": "the judge rejected a correct trace: %s" % out.get("pos-good")})
+        return problems
 
     # ---- random histories -------------------------------------------------------
     def gen_ops(self, rng, me, nusers, nobjs, allow_err=True):
